@@ -6,7 +6,7 @@ From Coq Require Import ZArith QArith NArith String Ascii Bool Lia List.
 Import ListNotations.
 From TP Require Import Base.PyVal Base.PyOps Base.PyOps2 Base.PyObj Base.PyOpsInit
      Fields.FieldAst Fields.SetChain Struct.Shapes Struct.Instance Struct.EntrySites Struct.InitModel
-     Struct.InitSrcProofs Gen.InitSrc
+     Struct.InstanceProofs Struct.InitSrcProofs Gen.InitSrc
      Errors.Template Errors.Render Errors.Parse Errors.Collect.
 From TP Require Base.PyOpsVersioned Base.PyOpsFields Base.PyOpsDerive.
 Local Open Scope Z_scope.
@@ -359,5 +359,133 @@ Section Reports.
   Qed.
 End Reports.
 
+(* ------------------------------------------------------------------ the `_trust_supplied_values` branch *)
+From TP Require Ser.Trusted.
+
+Definition s_trusted : istate := [(flag_trusted, PBool true)].
+
+Definition trusted_dom (kw : kwargs) : bool :=
+  negb (has_dup (map fst kw)) &&
+  forallb (fun p => negb (internal (fst p)) && negb (pystr_eqb (fst p) flag_trusted)) kw.
+
+Lemma alist_set_fresh {A} (s : list (pystr * A)) n v : alist_has s n = false -> alist_set s n v = s ++ [(n, v)].
+Proof.
+  unfold alist_has. induction s as [|[k x] t IH]; intro H; [reflexivity|].
+  cbn [alist_get] in H. cbn [alist_set app]. destruct (pystr_eqb k n); [discriminate H|]. f_equal. apply IH, H.
+Qed.
+
+Lemma alist_has_app {A} (s t : list (pystr * A)) n : alist_has (s ++ t) n = alist_has s n || alist_has t n.
+Proof.
+  unfold alist_has. induction s as [|[k x] r IH]; [reflexivity|].
+  cbn [app alist_get]. destruct (pystr_eqb k n); [reflexivity|exact IH].
+Qed.
+
+Lemma alist_has_keys' {A} (a : list (pystr * A)) n : alist_has a n = str_in n (map fst a).
+Proof.
+  unfold alist_has, str_in. induction a as [|[k x] t IH]; [reflexivity|].
+  cbn [map fst existsb alist_get]. rewrite (peqb_sym n k). destruct (pystr_eqb k n); [reflexivity|exact IH].
+Qed.
+
+Lemma filter_public_id (l : kwargs) :
+  (forall p, In p l -> internal (fst p) = false) -> filter (fun p => negb (internal (fst p))) l = l.
+Proof.
+  induction l as [|p t IH]; intro H; [reflexivity|]. cbn [filter]. rewrite (H p (or_introl eq_refl)). cbn [negb].
+  f_equal. apply IH. intros q Hq. apply H. right. exact Hq.
+Qed.
+
+Section Trusted.
+  Variable w : world.
+  Hypothesis super_neutral : forall s, w_super w (s2p "__init__") [] s = (s, inl PNone).
+
+  Definition tr_body (h : heap) (fbn : pyval) : pyval * pyval -> unit -> M unit :=
+    fun '(k, v) (_ : unit) =>
+      (v' <~ (c0 <~ (andM (t8 <~ lift (obj_getattr h (ref (s2p "TypedPyDefaults")) (s2p "safe_trusted_instantiation")) ;; ret (py_truthy t8))
+                          (fun _ => (andM (lift (py_in_dyn k fbn))
+                                          (fun _ => (t9 <~ lift (py_getitem_dyn fbn k) ;; lift (obj_hasattr h t9 (s2p "_from_trusted_value"))))))) ;;
+              if c0 then (t10 <~ lift (py_getitem_dyn fbn k) ;;
+                          t11 <~ w_invoke w t10 (s2p "_from_trusted_value") [v; (ref (s2p "self"))] ;;
+                          let v2 := t11 in (ret v2))
+              else (ret v)) ;;
+       (_ <~ self_dict_set k v' ;; (ret tt))).
+
+  Lemma tr_loop c ff : forall l s,
+      for_acc (tr_body (init_heap c ff) (fields_map c)) (pairs l) tt s =
+      (fold_left (fun st p => alist_set st (fst p) (snd p)) l s, inl tt).
+  Proof.
+    induction l as [|[n v] t IH]; intro s; [reflexivity|].
+    cbn [pairs map for_acc fst snd fold_left]. fold (pairs t).
+    rewrite (bindM_ok _ _ s (alist_set s n v) tt eq_refl). apply IH.
+  Qed.
+
+  Lemma fold_set_fresh : forall (l : kwargs) s,
+      has_dup (map fst l) = false -> (forall p, In p l -> alist_has s (fst p) = false) ->
+      fold_left (fun st p => alist_set st (fst p) (snd p)) l s = s ++ l.
+  Proof.
+    induction l as [|[n v] t IH]; intros s Hd Hs; [rewrite app_nil_r; reflexivity|].
+    cbn [map fst has_dup] in Hd. apply orb_false_iff in Hd. destruct Hd as [Hd1 Hd2].
+    cbn [fold_left fst snd]. rewrite alist_set_fresh by (apply (Hs (n, v)); left; reflexivity).
+    rewrite IH; [rewrite <- app_assoc; reflexivity | exact Hd2 |].
+    intros p Hp. rewrite alist_has_app. rewrite (Hs p (or_intror Hp)). cbn [orb].
+    unfold alist_has. cbn [alist_get]. destruct (pystr_eqb n (fst p)) eqn:E; [|reflexivity].
+    apply pystr_eqb_spec in E. subst n. exfalso.
+    assert (str_in (fst p) (map fst t) = true) by (apply str_in_In, in_map, Hp). congruence.
+  Qed.
+
+  (* the trusted branch: every keyword goes into __dict__ as it is, then `_instantiated` and an empty `_none_fields`;
+     no setattr, no __validate__ - whatever the world's setattr is, whatever the positional arguments are *)
+  Theorem generated_init_trusted : forall c ff args kw,
+      trusted_dom kw = true ->
+      exists s,
+        Structure__init (init_heap c ff) w args (kw_dict kw) s_trusted = (s, inl tt) /\
+        s = s_trusted ++ kw ++ [(n_instantiated, PBool true); (n_none_fields, PSet false [])] /\
+        PStruct (c_name c) (public s) = trusted_instance c kw /\
+        PStruct (c_name c) (tl (public s)) = Ser.Trusted.from_trusted c kw.
+  Proof.
+    intros c ff args kw Hd. unfold trusted_dom in Hd. apply andb_true_iff in Hd. destruct Hd as [Hd Hn].
+    apply negb_true_iff in Hd.
+    assert (Hfresh : forall p, In p kw -> alist_has s_trusted (fst p) = false /\ internal (fst p) = false).
+    { intros p Hp. pose proof (proj1 (forallb_forall _ _) Hn p Hp) as Hq. cbv beta in Hq.
+      apply andb_true_iff in Hq. destruct Hq as [H1 H2]. apply negb_true_iff in H1. apply negb_true_iff in H2.
+      split; [|exact H1]. unfold alist_has, s_trusted. cbn [alist_get]. rewrite (peqb_sym flag_trusted (fst p)), H2. reflexivity. }
+    unfold Structure__init.
+    rewrite (bindM_ok _ _ s_trusted s_trusted true eq_refl).
+    rewrite (bindM_ok _ _ s_trusted s_trusted (ref (s2p "cls")) eq_refl).
+    rewrite (bindM_ok _ _ s_trusted s_trusted (fields_map c) eq_refl). cbv zeta.
+    rewrite (bindM_ok _ _ s_trusted s_trusted (pairs kw) eq_refl).
+    unfold bindM at 1.
+    change (for_acc _ (pairs kw) tt s_trusted) with (for_acc (tr_body (init_heap c ff) (fields_map c)) (pairs kw) tt s_trusted).
+    rewrite tr_loop. rewrite fold_set_fresh; [|exact Hd|intros p Hp; apply (Hfresh p Hp)].
+    set (s1 := s_trusted ++ kw).
+    assert (H1 : alist_has s1 n_instantiated = false /\ alist_has s1 n_none_fields = false).
+    { unfold s1. rewrite !alist_has_app. split.
+      - change (alist_has s_trusted n_instantiated) with false. cbn [orb]. rewrite alist_has_keys'.
+        destruct (str_in n_instantiated (map fst kw)) eqn:E; [|reflexivity].
+        apply str_in_true in E. apply in_map_iff in E. destruct E as [p [E1 E2]].
+        destruct (Hfresh p E2) as [_ Hi]. rewrite E1 in Hi. discriminate Hi.
+      - change (alist_has s_trusted n_none_fields) with false. cbn [orb]. rewrite alist_has_keys'.
+        destruct (str_in n_none_fields (map fst kw)) eqn:E; [|reflexivity].
+        apply str_in_true in E. apply in_map_iff in E. destruct E as [p [E1 E2]].
+        destruct (Hfresh p E2) as [_ Hi]. rewrite E1 in Hi. discriminate Hi. }
+    destruct H1 as [H1 H2].
+    rewrite (bindM_ok _ _ s1 (alist_set s1 n_instantiated (PBool true)) tt eq_refl).
+    rewrite (alist_set_fresh s1 n_instantiated (PBool true) H1).
+    set (s2 := s1 ++ [(n_instantiated, PBool true)]).
+    assert (H3 : alist_has s2 n_none_fields = false).
+    { unfold s2. rewrite alist_has_app, H2. reflexivity. }
+    rewrite (bindM_ok _ _ s2 (alist_set s2 n_none_fields (PSet false [])) tt eq_refl).
+    rewrite (alist_set_fresh s2 n_none_fields (PSet false []) H3).
+    rewrite (bindM_ok _ _ _ _ PNone (super_neutral _)).
+    eexists. split; [reflexivity|].
+    assert (Hpub : public (s2 ++ [(n_none_fields, PSet false [])]) = s_trusted ++ kw).
+    { unfold s2, s1, public. rewrite !filter_app. cbn [filter fst]. 
+      change (negb (internal n_instantiated)) with false. change (negb (internal n_none_fields)) with false.
+      change (negb (internal flag_trusted)) with true. cbv iota. rewrite !app_nil_r. cbn [app]. f_equal.
+      apply filter_public_id. intros p Hp. apply (Hfresh p Hp). }
+    split; [unfold s2, s1; rewrite <- !app_assoc; reflexivity|].
+    rewrite Hpub. split; reflexivity.
+  Qed.
+End Trusted.
+
 Print Assumptions generated_init_collect_all.
 Print Assumptions generated_init_fail_fast_reports.
+Print Assumptions generated_init_trusted.
